@@ -251,7 +251,7 @@ def make_np(uf):
         return SArr([lo + w * i for i in range(n + 1)], float)
 
     def vstack(parts):
-        return ("vstack", [list(_elems(p)) for p in parts])
+        return VStack([SArr(list(_elems(p)), float) for p in parts])
 
     def average(a, **kw):
         vs = [lift(v) for v in _elems(a)]
@@ -286,6 +286,14 @@ def make_np(uf):
                 meshgrid=meshgrid, histogram2d=histogram2d, vstack=vstack,
                 average=average, median=median, std=std)
     return npx
+
+
+class VStack(list):
+    """np.vstack of 1-D arrays: a list of rows"""
+
+    @property
+    def shape(self):
+        return (len(self), len(self[0]) if self else 0)
 
 
 def sort_net(vs):
@@ -385,8 +393,8 @@ def build(uf):
             self.var_type, self.bw = var_type, list(bw)
 
         def pdf(self, positions):
-            assert positions[0] == "vstack"
-            pts = positions[1]
+            assert isinstance(positions, VStack)
+            pts = [list(_elems(r)) for r in positions]
             return SArr(uf("kdemv", [self.data, self.var_type, self.bw, pts],
                            shape=(len(pts[0]),)), float)
 
@@ -673,6 +681,22 @@ def run_defaults(eng, p):
     eng.prove(z3.And(same(bw[0], wx / 2), same(bw[1], wy / 2)),
               "kde_multivariate default bandwidth == doane width / 2 of "
               "the respective axis")
+    # ... also when the density is evaluated at explicit positions
+    px = SArr([eng.real("px%d" % i) for i in range(2)], float)
+    py = SArr([eng.real("py%d" % i) for i in range(2)], float)
+    n0 = len(uf.log)
+    with quiet():
+        km["kde_multivariate"](xs, ys, xout=px, yout=py)
+    call = [a for nm, a in uf.log[n0:] if nm == "kdemv"][0]
+    eng.prove(z3.And(same(call[2][0], wx / 2), same(call[2][1], wy / 2)),
+              "kde_multivariate default bandwidth comes from the EVENTS, "
+              "not from the positions the density is evaluated at")
+    eng.prove(conj([same(a, b) for a, b in zip(call[0][0], list(xs))] +
+                   [same(a, b) for a, b in zip(call[0][1], list(ys))] +
+                   [same(a, b) for a, b in zip(call[3][0], list(px))] +
+                   [same(a, b) for a, b in zip(call[3][1], list(py))]),
+              "kde_multivariate: estimator built from the events, evaluated "
+              "at the positions")
     # doane width formula
     n = N
     g1 = uf("skew", [xs])
@@ -1085,6 +1109,16 @@ def _replay_wiring(p, what):
                 return {"reproduced": True,
                         "key": "kde_multivariate|default-bandwidth",
                         "detail": "default bandwidth is not doane/2 per axis"}
+            xo = np.array([80., 100., 120., 140.])
+            yo = np.array([0.08, 0.1, 0.12, 0.09])
+            got2 = km.kde_multivariate(x, y, xout=xo, yout=yo)
+            ref2 = est.pdf(np.vstack([xo, yo]))
+            if not np.allclose(got2, ref2, equal_nan=True):
+                return {"reproduced": True,
+                        "key": "kde_multivariate|default-bandwidth",
+                        "detail": "with explicit positions the default "
+                        "bandwidth is not doane/2 of the EVENTS (density %r, "
+                        "reference %r)" % (got2.tolist(), ref2.tolist())}
     return {"reproduced": False, "key": None,
             "detail": "real estimators agree with the reference composition"}
 
